@@ -24,6 +24,27 @@ MODULES = {
 }
 
 
+class ReplayTimeout(BaseException):
+    pass
+
+
+def call_replay(lem, cfg, model, seconds=90):
+    """run a replay driver under an alarm: a replay that does not return is inconclusive, never a hang"""
+    import signal
+
+    def onalarm(*a):
+        raise ReplayTimeout()
+    old = signal.signal(signal.SIGALRM, onalarm)
+    signal.alarm(seconds)
+    try:
+        return lem.replay(cfg, model)
+    except ReplayTimeout:
+        return False, 'replay did not return within %d s' % seconds
+    finally:
+        signal.alarm(0)
+        signal.signal(signal.SIGALRM, old)
+
+
 def jsonable(x):
     try:
         json.dumps(x)
@@ -77,7 +98,7 @@ def run_property(prop, tier, only, nproc, timeout, write_evidence, verbose):
         lem = R.lemmas.get(f['lemma'])
         ok = False
         try:
-            ok, detail = lem.replay(f.get('cfg', {}), f['witness'])
+            ok, detail = call_replay(lem, f.get('cfg', {}), f['witness'])
         except Exception as x:
             detail = 'replay raised %r' % (x,)
         if ok:
@@ -94,7 +115,7 @@ def run_property(prop, tier, only, nproc, timeout, write_evidence, verbose):
             if lem is None or lem.replay is None:
                 continue
             try:
-                ok, detail = lem.replay(f.get('cfg', {}), f['witness'])
+                ok, detail = call_replay(lem, f.get('cfg', {}), f['witness'])
             except Exception as x:
                 ok, detail = True, 'replay raised %r' % (x,)
             if ok:
@@ -166,7 +187,7 @@ def run_property(prop, tier, only, nproc, timeout, write_evidence, verbose):
             reproduced, detail = False, 'no replay driver'
             if lem.replay is not None:
                 try:
-                    reproduced, detail = lem.replay(cfg, c['model'])
+                    reproduced, detail = call_replay(lem, cfg, c['model'])
                 except Exception as x:
                     detail = 'replay driver raised: %s' % traceback.format_exc()[-800:]
             rec['replay_detail'] = detail
